@@ -5,7 +5,7 @@ demo passes on the clean tree, fails with the patch; then run the checks named i
 import glob, json, os, subprocess, sys, time
 HERE = os.path.dirname(os.path.abspath(__file__))
 SRC = '/repo'
-REPO = '/tmp/verif_scratch_repo'     # scratch worktree: background runs keep using /repo undisturbed
+REPO = os.environ.get('VERIF_SCRATCH', '/tmp/verif_scratch_repo')     # scratch worktree: background runs keep using /repo undisturbed
 def sh(*a, **kw):
     return subprocess.run(a, capture_output=True, text=True, **kw)
 def demo(d):
